@@ -22,11 +22,14 @@ type Case struct {
 	Tie   string  `json:"tie"`
 	Async string  `json:"async"`
 	Empty string  `json:"empty_as"` // how the getter represents an empty range: empty | typed-nil | untyped-nil
-	Seed  uint64  `json:"seed"`
-	Req   *TReq   `json:"req,omitempty"`
-	Walk  *TWalk  `json:"walk,omitempty"`
-	Q     *QCase  `json:"queries,omitempty"`
-	Codec *TEdge  `json:"codec,omitempty"`
+	// how the getter hands replies over: "" = a fresh []TEdge, "store-window" = a sub-slice of its own
+	// long-lived []any store (then a follow-up request on the same store must see the whole data set)
+	ReplyAs string `json:"reply_as,omitempty"`
+	Seed    uint64 `json:"seed"`
+	Req     *TReq  `json:"req,omitempty"`
+	Walk    *TWalk `json:"walk,omitempty"`
+	Q       *QCase `json:"queries,omitempty"`
+	Codec   *TEdge `json:"codec,omitempty"`
 }
 
 type TWalk struct {
@@ -293,6 +296,34 @@ func callTriples(cs []getterCall) []string {
 	return out
 }
 
+// storeOracle (store-window replies only; must run right after the case's own request): the
+// connection must not have written into the application's store — stated on the property itself:
+// a follow-up request for everything, served from the store as the request left it, returns the
+// whole data set in (time, id) order.
+func (h *harness) storeOracle(c Case) failure {
+	if c.ReplyAs != "store-window" {
+		return failure{}
+	}
+	n := len(c.D) + 1
+	o := h.w.followUp(c.D, c.Tie, c.Seed, TReq{First: &n})
+	h.run.Count("store-follow-up-checked")
+	if o.Panic != "" {
+		return failure{"the follow-up request on the application's store panicked: " + o.Panic, "crash", "crash"}
+	}
+	var got []string
+	for _, e := range o.Edges {
+		got = append(got, e.Node)
+	}
+	var want []string
+	for _, e := range sortedEdges(c.D) {
+		want = append(want, e.Id)
+	}
+	if len(o.Errors) > 0 || strings.Join(got, ",") != strings.Join(want, ",") {
+		return failure{fmt.Sprintf("the request damaged the application's edge store (the getter returns windows of its own sorted []any store): a follow-up request for all edges returns %v %v, the data set is %v", got, o.Errors, want), "property", "store"}
+	}
+	return failure{}
+}
+
 // deliveryOracle: the response must not depend on how the getter delivers its replies (slice,
 // promise, mixed) nor on how it represents an empty range. Evaluated on one case in four (by the
 // case's seed) and on every case of the one-by-one path: the same case is served again with the
@@ -302,7 +333,7 @@ func (h *harness) deliveryOracle(c Case, o servedObs, always bool) failure {
 	if plain || o.Panic != "" || (!always && c.Seed%4 != 0) {
 		return failure{}
 	}
-	ref := h.w.serve(c.D, c.Tie, "sync", "empty", c.Seed, *c.Req)
+	ref := h.w.serveAs(c.D, c.Tie, "sync", "empty", c.ReplyAs, c.Seed, *c.Req)
 	h.run.Count("delivery-independence-checked")
 	if ref.Panic == "" && ref.Body != o.Body {
 		return failure{fmt.Sprintf("the response depends on the getter's delivery: with %s delivery and empty ranges as %q the server answers %s, with a synchronous getter returning non-nil slices %s", c.Async, c.Empty, o.Body, ref.Body), "property", "delivery"}
@@ -315,7 +346,7 @@ func (h *harness) evalServedObs(c Case) (o servedObs, f failure) {
 	if h.announce != nil {
 		h.announce(c)
 	}
-	o = h.w.serve(c.D, c.Tie, c.Async, c.Empty, c.Seed, r)
+	o = h.w.serveAs(c.D, c.Tie, c.Async, c.Empty, c.ReplyAs, c.Seed, r)
 	canon, _ := servedCanon(c.D, o)
 	if h.verbose {
 		fmt.Printf("request:        %s\n", func() string { q, v := r.build(); b, _ := json.Marshal(v); return q + " " + string(b) }())
@@ -323,7 +354,11 @@ func (h *harness) evalServedObs(c Case) (o servedObs, f failure) {
 		fmt.Printf("response:       %s\n", o.Body)
 		fmt.Printf("implementation: %s\n", canon)
 	}
+	fStore := h.storeOracle(c)
 	if f = servedOracle(c.D, r, o); f.ok() {
+		f = fStore
+	}
+	if f.ok() {
 		f = h.deliveryOracle(c, o, true)
 	}
 	if !f.ok() {
@@ -401,7 +436,7 @@ func (h *harness) evalWalk(c Case) failure {
 		} else {
 			r.Last, r.Before = &n, cur
 		}
-		step := Case{Kind: "served", D: c.D, Tie: c.Tie, Async: c.Async, Empty: c.Empty, Seed: c.Seed + uint64(pages), Req: &r}
+		step := Case{Kind: "served", D: c.D, Tie: c.Tie, Async: c.Async, Empty: c.Empty, ReplyAs: c.ReplyAs, Seed: c.Seed + uint64(pages), Req: &r}
 		o, f := h.evalServedObs(step)
 		if !f.ok() {
 			f.What = fmt.Sprintf("page %d of the walk: %s", pages, f.What)
@@ -634,7 +669,7 @@ func (h *harness) classify(c Case, f failure) string {
 	h.verbose = false
 	defer func() { h.verbose = verbose }()
 	if c.Kind == "served" {
-		o := h.w.serve(c.D, c.Tie, c.Async, c.Empty, c.Seed, *c.Req)
+		o := h.w.serveAs(c.D, c.Tie, c.Async, c.Empty, c.ReplyAs, c.Seed, *c.Req)
 		calls = o.Calls
 	} else {
 		calls = h.walkCalls(c)
@@ -663,7 +698,7 @@ func (h *harness) walkCalls(c Case) []getterCall {
 		} else {
 			r.Last, r.Before = &n, cur
 		}
-		o := h.w.serve(c.D, c.Tie, c.Async, c.Empty, c.Seed+uint64(pages), r)
+		o := h.w.serveAs(c.D, c.Tie, c.Async, c.Empty, c.ReplyAs, c.Seed+uint64(pages), r)
 		all = append(all, o.Calls...)
 		s := o.End
 		more := o.HasNext
@@ -726,6 +761,7 @@ func (h *harness) shrink(c Case, f failure, key string) (Case, failure) {
 			func(d *Case) bool { ok := d.Async != "sync"; d.Async = "sync"; return ok },
 			func(d *Case) bool { ok := d.Async == "mixed"; d.Async = "promise"; return ok },
 			func(d *Case) bool { ok := d.Empty != "" && d.Empty != "empty"; d.Empty = "empty"; return ok },
+			func(d *Case) bool { ok := d.ReplyAs != ""; d.ReplyAs = ""; return ok },
 			func(d *Case) bool { ok := d.Tie == "seeded"; d.Tie = "reverse-id"; return ok },
 			func(d *Case) bool { ok := d.Tie != "id"; d.Tie = "id"; return ok },
 			func(d *Case) bool {
@@ -876,6 +912,11 @@ func (h *harness) count(c Case, f failure) {
 			e = "empty"
 		}
 		h.run.Count("getter-empty-range-as:" + e)
+		if c.ReplyAs != "" {
+			h.run.Count("getter-reply-as:" + c.ReplyAs)
+		} else {
+			h.run.Count("getter-reply-as:fresh-slice")
+		}
 	}
 	if c.Kind == "served" {
 		r := c.Req
@@ -928,8 +969,9 @@ func (h *harness) record(c Case, f failure) {
 	case "served":
 		h.run.Oblige("correspondence: served TimeBasedConnection = model resolveTime (edges, page info, totalCount | error class, getter (min,max,limit) triples); Lean timeRef = Go TimeRef", "correspondence", 1, f.Kind != "correspondence", f.What)
 		h.run.Oblige("oracle: every returned edge satisfies every client filter", "oracle", 1, !(propFail && f.Mode == "filter"), f.What)
-		h.run.Oblige("oracle: response = TimeRef (edges, cursors, required flags) for a getter that breaks ties by id", "oracle", 1, !(propFail && f.Mode != "filter" && f.Mode != "cover" && f.Mode != "delivery" && fk == ""), f.What)
+		h.run.Oblige("oracle: response = TimeRef (edges, cursors, required flags) for a getter that breaks ties by id", "oracle", 1, !(propFail && f.Mode != "filter" && f.Mode != "cover" && f.Mode != "delivery" && f.Mode != "store" && fk == ""), f.What)
 		h.run.Oblige("oracle: the issued range queries cover every edge of the answer", "oracle", 1, !(propFail && f.Mode == "cover"), f.What)
+		h.run.Oblige("oracle: replies are read-only — after a request served from windows of the application's own store a follow-up request sees the whole data set", "oracle", 1, !(propFail && f.Mode == "store"), f.What)
 		h.run.Oblige("oracle: response independent of the getter's delivery (sync/promise/mixed) and of nil vs empty replies", "oracle", 1, !(propFail && f.Mode == "delivery"), f.What)
 	case "walk":
 		h.run.Oblige("oracle: forward/backward walks visit every matching edge exactly once (getter breaking ties by id)", "oracle", 1, f.ok() || fk != "", f.What)
@@ -995,8 +1037,9 @@ func (h *harness) flush() {
 		if h.announce != nil {
 			h.announce(c)
 		}
-		o := h.w.serve(c.D, c.Tie, c.Async, c.Empty, c.Seed, r)
-		if f := servedOracle(c.D, r, o); !f.ok() {
+		o := h.w.serveAs(c.D, c.Tie, c.Async, c.Empty, c.ReplyAs, c.Seed, r)
+		fStore := h.storeOracle(c)
+		if f := servedOracle(c.D, r, o); !f.ok() || !fStore.ok() {
 			h.check(c)
 			continue
 		}
